@@ -7,7 +7,9 @@ distances of the table entries).  Invariant `HInv`: the queue holds exactly the 
 in heap order.  `up_spec`, `down_spec` (sift lemmas with the usual "ordered except at one node" invariants),
 `push_spec`, `fix_spec` (after a strict decrease: `down` is a no-op, `up` repairs), `pop_spec` (returns the root,
 which is a queued minimum — `IsMin` — and leaves a heap of the rest), `relaxH_spec`/`foldl_relaxH_spec` (the inner
-loop never fails), `HInv.afterPop`, and `runHU_eq_runH`: the loop without the run-time check equals the checked one.
+loop never fails), `HInv.afterPop`, and `runHU_eq_runH`: the loop without the run-time check equals the checked one.  `HInv.initList` (any origin list),
+`searchToStart_spec`/`runH_to_spec` (`ExpandSearchTo` stops exactly at the pop of `dest`), `runH_finishes` (termination:
+fuel ≥ number of unsettled vertices of a finite closed vertex set).
 -/
 set_option linter.unusedSectionVars false
 set_option linter.unusedVariables false
@@ -854,4 +856,310 @@ theorem HInv.initEmpty : HInv ({ t := initTable [], heap := initHeap [] } : HSta
   · intro k _ hkn; simp at hkn
 
 end heap
+section more
+variable {P S α : Type} [DecidableEq P] [Cost α] [LawfulCost α]
+
+theorem mem_dedup (l : List P) (x : P) : x ∈ dedup l ↔ x ∈ l := by
+  induction l with
+  | nil => simp [dedup]
+  | cons y ys ih =>
+    simp only [dedup, List.mem_cons, List.mem_filter, ih]
+    by_cases h : x = y <;> simp [h]
+
+theorem nodup_dedup (l : List P) : (dedup l).Nodup := by
+  induction l with
+  | nil => simp [dedup]
+  | cons y ys ih =>
+    simp only [dedup, List.nodup_cons, List.mem_filter]
+    refine ⟨by simp, ?_⟩
+    exact List.Nodup.sublist List.filter_sublist ih
+
+/-- the state `NewShortestPathSearch…` produces for any list of origins (duplicates entered once) has a
+well-formed queue -/
+theorem HInv.initList (origins : List P) :
+    HInv ({ t := initTable origins, heap := initHeap origins } : HState P S α) := by
+  have hget : ∀ (k : Nat) (p : P), (initHeap origins)[k]? = some p → p ∈ origins := by
+    intro k p hk
+    simp only [initHeap, List.getElem?_toArray] at hk
+    exact (mem_dedup origins p).mp (List.mem_iff_getElem?.mpr ⟨k, hk⟩)
+  have hentry : ∀ p, p ∈ origins →
+      tget (initTable origins : Table P S α) p = some { visited := false, dist := Cost.zero, back := none } := by
+    intro p hp; rw [initTable_get]; simp [hp]
+  refine ⟨?_, ?_, ?_, ?_⟩
+  · intro k p hk
+    exact ⟨_, hentry p (hget k p hk), rfl⟩
+  · intro p e hp _
+    simp only at hp
+    rw [initTable_get] at hp
+    by_cases hpo : p ∈ origins
+    · obtain ⟨k, hk⟩ := List.mem_iff_getElem?.mp ((mem_dedup origins p).mpr hpo)
+      exact ⟨k, by simp only [initHeap, List.getElem?_toArray]; exact hk⟩
+    · simp [hpo] at hp
+  · intro a b p ha hb
+    simp only [initHeap, List.getElem?_toArray] at ha hb
+    have hlt : a < (dedup origins).length := by
+      rcases Nat.lt_or_ge a (dedup origins).length with h | h
+      · exact h
+      · rw [List.getElem?_eq_none h] at ha; cases ha
+    exact (List.getElem?_inj hlt (nodup_dedup origins)).mp (ha.trans hb.symm)
+  · intro k hk0 hkn pa pb ha hb
+    have h1 := hentry pa (hget _ _ ha)
+    have h2 := hentry pb (hget _ _ hb)
+    intro ea eb hea heb
+    simp only at hea heb
+    rw [h1] at hea; rw [h2] at heb; cases hea; cases heb
+    exact not_lt_of_le (le_rfl' _)
+
+
+theorem isMinB_complete {t : Table P S α} {p : P} (hmin : IsMin t p) : isMinB t p = true := by
+  obtain ⟨ep, hep, hepv, hm⟩ := hmin
+  unfold isMinB
+  simp only [hep, hepv, Bool.not_false, Bool.true_and, List.all_eq_true]
+  intro ⟨q, x⟩ hqx
+  obtain ⟨eq, heq⟩ := get_of_mem hqx
+  simp only [heq]
+  by_cases hv : eq.visited = true
+  · simp [hv]
+  · have hv' : eq.visited = false := by simpa using hv
+    simp [hv', hm q eq heq hv']
+
+/-! ### termination: every iteration settles one more point of a finite vertex set -/
+
+/-- not settled yet (no entry, or an unvisited one) -/
+def isOpen (t : Table P S α) (q : P) : Bool :=
+  match tget t q with
+  | some e => !e.visited
+  | none => true
+
+/-- how many of the vertices `V` are not settled yet -/
+def cnt (V : List P) (t : Table P S α) : Nat := (V.filter (isOpen t)).length
+
+theorem relax_isOpen (max d : α) (t : Table P S α) (e : Edge P S α) (q : P) :
+    isOpen (relax max d t e) q = isOpen t q := by
+  rcases relax_spec max d t e with ⟨heq, _⟩ | ⟨_, _, ne, heq, hnv, _, _, hold⟩
+  · rw [heq]
+  · rw [heq]
+    unfold isOpen
+    rw [get_put]
+    by_cases hq : q = e.last
+    · subst hq
+      simp only [if_true, hnv]
+      cases hg : tget t e.last with
+      | none => rfl
+      | some n => simp [(hold n hg).1]
+    · simp [hq]
+
+theorem foldl_relax_isOpen (max d : α) (es : List (Edge P S α)) (t : Table P S α) (q : P) :
+    isOpen (es.foldl (relax max d) t) q = isOpen t q := by
+  induction es generalizing t with
+  | nil => rfl
+  | cons e rest ih => simp only [List.foldl]; rw [ih, relax_isOpen]
+
+theorem relax_keys {V : List P} (max d : α) (t : Table P S α) (e : Edge P S α) (he : e.last ∈ V)
+    (hk : ∀ p x, tget t p = some x → p ∈ V) : ∀ p x, tget (relax max d t e) p = some x → p ∈ V := by
+  intro p x hp
+  rcases relax_spec max d t e with ⟨heq, _⟩ | ⟨_, _, ne, heq, _, _, _, _⟩
+  · rw [heq] at hp; exact hk p x hp
+  · rw [heq, get_put] at hp
+    by_cases hq : p = e.last
+    · rw [hq]; exact he
+    · simp [hq] at hp; exact hk p x hp
+
+theorem foldl_relax_keys {V : List P} (max d : α) (es : List (Edge P S α)) (hes : ∀ e, e ∈ es → e.last ∈ V) :
+    ∀ (t : Table P S α), (∀ p x, tget t p = some x → p ∈ V) →
+      ∀ p x, tget (es.foldl (relax max d) t) p = some x → p ∈ V := by
+  induction es with
+  | nil => intro t hk; exact hk
+  | cons e rest ih =>
+    intro t hk
+    simp only [List.foldl]
+    exact ih (fun e' he' => hes e' (List.mem_cons_of_mem _ he')) _
+      (relax_keys max d t e (hes e List.mem_cons_self) hk)
+
+theorem filter_length_lt {V : List P} {f f' : P → Bool} (hle : ∀ q, f' q = true → f q = true) {p : P}
+    (hp : p ∈ V) (h1 : f p = true) (h2 : f' p = false) : (V.filter f').length < (V.filter f).length := by
+  induction V with
+  | nil => simp at hp
+  | cons y ys ih =>
+    have hmono : (ys.filter f').length ≤ (ys.filter f).length := by
+      clear ih hp
+      induction ys with
+      | nil => simp
+      | cons z zs ihz =>
+        simp only [List.filter]
+        cases hz' : f' z <;> cases hz : f z <;> simp <;> try omega
+        have := hle z hz'; rw [hz] at this; cases this
+    simp only [List.filter]
+    by_cases hy : y = p
+    · subst hy; simp [h1, h2]; omega
+    · have := ih (by simpa [Ne.symm hy] using hp)
+      cases hz' : f' y <;> cases hz : f y <;> simp <;> try omega
+      have := hle y hz'; rw [hz] at this; cases this
+
+/-- **Termination**: on a finite, closed vertex set the loop never runs out of fuel (and never gets stuck):
+with at least as much fuel as there are unsettled vertices, `runH` finishes. -/
+theorem runH_finishes (g : Graph P S α) (max : α) (to : Option P) (V : List P)
+    (hclosed : ∀ p, p ∈ V → ∀ e, e ∈ g.adj p → e.last ∈ V) :
+    ∀ (fuel : Nat) (s : HState P S α), HInv s → (∀ p x, tget s.t p = some x → p ∈ V) → cnt V s.t ≤ fuel →
+      ∃ s', runH g max to fuel s = .done s' := by
+  intro fuel
+  induction fuel with
+  | zero =>
+    intro s hI hk hc
+    unfold runH
+    by_cases hz : s.heap.size = 0
+    · exact ⟨s, by simp [hz]⟩
+    · obtain ⟨p, hp⟩ := getElem?_lt (show 0 < s.heap.size by omega)
+      obtain ⟨e, he, hev⟩ := hI.unvis 0 p hp
+      have : p ∈ V.filter (isOpen s.t) := List.mem_filter.mpr ⟨hk p e he, by simp [isOpen, he, hev]⟩
+      have := List.length_pos_of_mem this
+      unfold cnt at hc; omega
+  | succ fuel ih =>
+    intro s hI hk hc
+    unfold runH
+    by_cases hz : s.heap.size = 0
+    · exact ⟨s, by simp [hz]⟩
+    · simp only [hz, if_false]
+      obtain ⟨p, h1, hpop, hmin, hinj, hord, hmem⟩ := pop_spec hI hz
+      rw [hpop]
+      simp only [isMinB_complete hmin, Bool.not_true, Bool.false_eq_true, if_false]
+      obtain ⟨ep, hep, hepv, _⟩ := hmin
+      have hmark : markVisited s.t p = some (tput s.t p { ep with visited := true }, ep) := by
+        simp [markVisited, hep]
+      rw [hmark]
+      simp only []
+      by_cases hstop : stopNow to p (tput s.t p { ep with visited := true }) ep = true
+      · exact ⟨{ t := tput s.t p { ep with visited := true }, heap := h1 }, by simp [hstop]⟩
+      · simp only [hstop]
+        have hI1 := hI.afterPop hep hinj hord hmem
+        obtain ⟨s2, hf, hI2⟩ := foldl_relaxH_spec max ep.dist (g.adj p) hI1
+        rw [hf]
+        simp only [Bool.false_eq_true, if_false]
+        have ht2 := foldl_relaxH_table max ep.dist (g.adj p) _ _ hf
+        simp only at ht2
+        have hpV : p ∈ V := hk p ep hep
+        have hk1 : ∀ q x, tget (tput s.t p { ep with visited := true }) q = some x → q ∈ V := by
+          intro q x hq
+          rw [get_put] at hq
+          by_cases hqp : q = p
+          · rw [hqp]; exact hpV
+          · simp [hqp] at hq; exact hk q x hq
+        have hk2 : ∀ q x, tget s2.t q = some x → q ∈ V := by
+          rw [ht2]
+          exact foldl_relax_keys max ep.dist (g.adj p) (fun e he => hclosed p hpV e he) _ hk1
+        have hc2 : cnt V s2.t < cnt V s.t := by
+          unfold cnt
+          apply filter_length_lt (p := p) _ hpV
+          · simp [isOpen, hep, hepv]
+          · rw [ht2, foldl_relax_isOpen]; simp [isOpen, get_put_self]
+          · intro q hq
+            rw [ht2, foldl_relax_isOpen] at hq
+            unfold isOpen at hq ⊢
+            rw [get_put] at hq
+            by_cases hqp : q = p
+            · simp [hqp] at hq
+            · simpa [hqp] using hq
+        exact ih s2 hI2 hk2 (by omega)
+
+
+/-! ### `ExpandSearchTo` with the real queue -/
+
+theorem relax_keeps_unvisited (max d : α) (t : Table P S α) (e : Edge P S α) {q : P} {x : Entry P S α}
+    (hx : tget t q = some x) (hv : x.visited = false) :
+    ∃ x', tget (relax max d t e) q = some x' ∧ x'.visited = false := by
+  rcases relax_spec max d t e with ⟨heq, _⟩ | ⟨_, _, ne, heq, hnv, _, _, _⟩
+  · rw [heq]; exact ⟨x, hx, hv⟩
+  · rw [heq, get_put]
+    by_cases hq : q = e.last
+    · exact ⟨ne, by simp [hq], hnv⟩
+    · exact ⟨x, by simp [hq, hx], hv⟩
+
+theorem foldl_relax_keeps_unvisited (max d : α) (es : List (Edge P S α)) :
+    ∀ (t : Table P S α) {q : P} {x : Entry P S α}, tget t q = some x → x.visited = false →
+      ∃ x', tget (es.foldl (relax max d) t) q = some x' ∧ x'.visited = false := by
+  induction es with
+  | nil => intro t q x hx hv; exact ⟨x, hx, hv⟩
+  | cons e rest ih =>
+    intro t q x hx hv
+    obtain ⟨x1, h1, hv1⟩ := relax_keeps_unvisited max d t e hx hv
+    exact ih _ h1 hv1
+
+/-- the state after the first statements of `ExpandSearchTo(dest)`: the queue is well formed and `dest` is queued -/
+theorem searchToStart_spec (origins : List P) (dest : P) (inf : α) :
+    ∃ s : HState P S α, searchToStart origins dest inf = some s ∧ HInv s ∧
+      (∃ de, tget s.t dest = some de ∧ de.visited = false) ∧
+      s.t = (match tget (initTable origins : Table P S α) dest with
+        | some _ => initTable origins
+        | none => tput (initTable origins) dest { visited := false, dist := inf, back := none }) := by
+  unfold searchToStart
+  cases hd : tget (initTable origins : Table P S α) dest with
+  | some e0 =>
+    refine ⟨_, rfl, HInv.initList origins, ⟨e0, hd, ?_⟩, rfl⟩
+    rw [initTable_get] at hd
+    by_cases h : dest ∈ origins
+    · simp [h] at hd; subst hd; rfl
+    · simp [h] at hd
+  | none =>
+    obtain ⟨h', hp, hI⟩ := push_spec (ne := { visited := false, dist := inf, back := none })
+      (HInv.initList (S := S) (α := α) origins) hd rfl
+    refine ⟨{ t := sentinelTable origins dest inf, heap := h' }, ?_, hI, ⟨_, get_put_self _ _ _, rfl⟩, rfl⟩
+    simp only [sentinelTable] at hp ⊢
+    rw [hp]; rfl
+
+/-- `ExpandSearchTo` on a well-formed queue that holds `dest`: a finished run went through states of the
+abstract search and stopped exactly when `dest` was popped (as a queued minimum) and marked visited -/
+theorem runH_to_spec (g : Graph P S α) (max : α) (dest : P) :
+    ∀ (fuel : Nat) (s s' : HState P S α), HInv s → (∃ de, tget s.t dest = some de ∧ de.visited = false) →
+      runH g max (some dest) fuel s = .done s' →
+      ∃ tr t r, Reach g max s.t tr t ∧ IsMin t dest ∧ markVisited t dest = some (s'.t, r) := by
+  intro fuel
+  induction fuel with
+  | zero =>
+    intro s s' hI ⟨de, hde, hdv⟩ h
+    unfold runH at h
+    obtain ⟨k, hk⟩ := hI.cover dest de hde hdv
+    have := lt_size_of_some hk
+    simp [show s.heap.size ≠ 0 by omega] at h
+  | succ fuel ih =>
+    intro s s' hI ⟨de, hde, hdv⟩ h
+    unfold runH at h
+    obtain ⟨k, hk⟩ := hI.cover dest de hde hdv
+    have hz : s.heap.size ≠ 0 := by have := lt_size_of_some hk; omega
+    simp only [hz, if_false] at h
+    obtain ⟨p, h1, hpop, hmin, hinj, hord, hmem⟩ := pop_spec hI hz
+    rw [hpop] at h
+    simp only [isMinB_complete hmin, Bool.not_true, Bool.false_eq_true, if_false] at h
+    obtain ⟨ep, hep, hepv, hm⟩ := hmin
+    have hmark : markVisited s.t p = some (tput s.t p { ep with visited := true }, ep) := by
+      simp [markVisited, hep]
+    rw [hmark] at h
+    simp only [] at h
+    by_cases hpd : p = dest
+    · subst hpd
+      simp [stopNow] at h
+      cases h
+      exact ⟨[], s.t, ep, Reach.refl, ⟨ep, hep, hepv, hm⟩, hmark⟩
+    · have hstop : stopNow (some dest) p (tput s.t p { ep with visited := true }) ep = false := by
+        have hdt : tget (tput s.t p { ep with visited := true }) dest = some de := by
+          rw [get_put_ne _ _ (Ne.symm hpd)]; exact hde
+        simp [stopNow, hpd, hdt, hm dest de hde hdv]
+      rw [hstop] at h
+      simp only [Bool.false_eq_true, if_false] at h
+      have hI1 := hI.afterPop hep hinj hord hmem
+      obtain ⟨s2, hf, hI2⟩ := foldl_relaxH_spec max ep.dist (g.adj p) hI1
+      rw [hf] at h
+      simp only [] at h
+      have ht2 := foldl_relaxH_table max ep.dist (g.adj p) _ _ hf
+      simp only at ht2
+      have hd2 : ∃ de2, tget s2.t dest = some de2 ∧ de2.visited = false := by
+        rw [ht2]
+        exact foldl_relax_keeps_unvisited max ep.dist (g.adj p) _
+          (by rw [get_put_ne _ _ (Ne.symm hpd)]; exact hde) hdv
+      obtain ⟨tr, t, r, hr, hmin2, hmark2⟩ := ih s2 s' hI2 hd2 h
+      have hexp : Model.Dijkstra.expand g max s.t p = some s2.t := by
+        unfold Model.Dijkstra.expand
+        rw [hmark]; simp [ht2]
+      exact ⟨tr ++ [(p, ep.dist)], t, r, Reach.head ⟨ep, hep, hepv, hm⟩ hep hexp hr, hmin2, hmark2⟩
+
+end more
 end B6.Lemmas.DijkstraHeap
